@@ -87,9 +87,29 @@ def run(prop, repo="/repo"):
         meta = json.load(open(m))
         if prop in meta.get("expected_to_fire", []):
             jobs.append(("seeded", os.path.join(os.path.dirname(m), "patch.diff")))
+    # a benign variant that touches no crate the property analyses cannot change the property's verdict: it is recorded as
+    # "not relevant" instead of being re-analysed (the crates come from the functions the quick pass just analysed)
+    crates = None
+    try:
+        evq = json.load(open(os.path.join(HERE, "evidence", "%s.json" % prop)))
+        crates = {f.split("::", 1)[0] for f in evq["coverage"].get("functions", [])}
+    except Exception:
+        crates = None
+    dirs = {"pocket_types": "pocket-types/", "pocket_db": "pocket-db/"}
+    skipped = 0
     for b in sorted(glob.glob(os.path.join(HERE, "selftest", "benign", "*.diff")) +
                     glob.glob(os.path.join(HERE, "selftest", "benign_r", "*.diff"))):
+        if crates:
+            touched = set()
+            for line in open(b, errors="replace"):
+                if line.startswith("+++ b/") or line.startswith("--- a/"):
+                    touched.add(line[6:].strip())
+            rel = any(any(t.startswith(dirs[c]) for c in crates if c in dirs) for t in touched)
+            if touched and not rel:
+                skipped += 1
+                continue
         jobs.append(("benign", b))
+    report["benign_not_relevant"] = skipped
     fired = applicable = 0
     with ThreadPoolExecutor(max_workers=6) as ex:
         results = list(ex.map(lambda j: (j, _mutant(prop, repo, j[1])), jobs))
